@@ -68,6 +68,11 @@ func (er *entryReaderImpl) Read(now time.Time) ([]*entry, error) {
 		seen := map[time.Time]struct{}{}
 		for _, ss := range s {
 			next := ss.Parsed.Next(now)
+			if next.IsZero() {
+				// The expression never fires (e.g. 31 April): there is no
+				// next time, which must not be taken for a time in the past.
+				continue
+			}
 			if _, ok := seen[next]; ok {
 				continue
 			}
